@@ -735,9 +735,16 @@ where
 {
     #[inline]
     pub(crate) fn clean(mut self) -> Result<(), CacheError> {
+        // Drop what is buffered now and no more: with other threads inserting all the time
+        // the buffer may never be found empty, and the processor would never leave this loop.
+        let mut left = self.processor.insert_buf_rx.len();
         loop {
             #[cfg(transparencies_stretto_verif)]
             crate::verif::yield_point("clean_item");
+            if left == 0 {
+                return Ok(());
+            }
+            left -= 1;
             select! {
                 // clear out the insert buffer channel.
                 recv(self.processor.insert_buf_rx) -> msg => {
